@@ -236,23 +236,23 @@ def trigonal_obligations(ctx, env):
                 return snap
             res = I.explore(thunk, pre=NONSING + INV)
             if len(res) != 1 or res[0].kind != "return":
-                ctx.prove(lab + "returns", NONSING + INV, z3.BoolVal(False), clause=f"choose_trigonal_lattice('{tgt}') and back run to completion on every crystal of an R group with a non-singular cell",
+                ctx.prove(lab + "returns", [], z3.BoolVal(False), clause=f"choose_trigonal_lattice('{tgt}') and back run to completion on every crystal of an R group with a non-singular cell",
                           replay=replay, fn=f_ctl)
                 return
             r = res[0]
             s, H = r.value, r.pc
             D1, F1, D2, F2 = s["D1"], s["F1"], s["D2"], s["F2"]
             T1 = extract_T(D1)
-            ctx.prove(lab + "basis_change/linear", H, z3.BoolVal(T1 is not None), clause="new direct matrix == T . direct for a constant rational matrix T", replay=replay, fn=f_ctl)
+            ctx.prove(lab + "basis_change/linear", [], z3.BoolVal(T1 is not None), clause="new direct matrix == T . direct for a constant rational matrix T", replay=replay, fn=f_ctl)
             if T1 is None:
                 return
             extracted[(src, tgt)] = T1
             ctx.prove(lab + "basis_change/direct", [], conj([z(to_real(D1[i, j])) == sum(z(to_real(T1[i][k])) * Dm[k][j] for k in range(3)) for i in range(3) for j in range(3)]),
                       split=False, clause=f"direct' == T . direct, T = {[[str(x) for x in row] for row in T1]} (new lattice vectors are integer / third-integer combinations of the old ones)",
                       replay=replay, fn=f_ctl, **SMT)
-            ctx.prove(lab + "space_group", H, z3.BoolVal(s["sg1"].get("international_tables_number") == 148 and s["sg1"].get("choice") == tgt and s["log1"] == [(148, tgt)]),
+            ctx.prove(lab + "space_group", [], z3.BoolVal(s["sg1"].get("international_tables_number") == 148 and s["sg1"].get("choice") == tgt and s["log1"] == [(148, tgt)]),
                       clause="the new space group is SpaceGroup(same number, choice=target)", replay=replay, fn=f_ctl)
-            ctx.prove(lab + "memo_dropped", H, z3.BoolVal(not s["memo1"]), clause="memoised unit-cell data of the old setting is discarded (C14 proves this for every memo; here: the run)", replay=replay, fn=f_ctl)
+            ctx.prove(lab + "memo_dropped", [], z3.BoolVal(not s["memo1"]), clause="memoised unit-cell data of the old setting is discarded (C14 proves this for every memo; here: the run)", replay=replay, fn=f_ctl)
             cart = lambda F, Dd, i, j: sum(z(to_real(F[i, k])) * z(to_real(Dd[k, j])) for k in range(3))
             cart0 = lambda i, j: sum(Fm[i][k] * Dm[k][j] for k in range(3))
             def cart_cert(Fn, Dn, Xn, Fo, Do):
@@ -280,7 +280,7 @@ def trigonal_obligations(ctx, env):
             # round trip
             ctx.prove(lab + "round_trip/direct", [], conj([z(to_real(D2[i, j])) == Dm[i][j] for i in range(3) for j in range(3)]),
                       split=False, clause=f"{src}->{tgt}->{src} restores the direct matrix exactly (T_back . T == 1; an identity in the entries of direct, no hypotheses)", replay=replay, fn=f_ctl, **SMT)
-            ctx.prove(lab + "round_trip/space_group", H, z3.BoolVal(s["sg2"].get("international_tables_number") == 148 and s["sg2"].get("choice") == src),
+            ctx.prove(lab + "round_trip/space_group", [], z3.BoolVal(s["sg2"].get("international_tables_number") == 148 and s["sg2"].get("choice") == src),
                       clause="round trip restores the space group setting", replay=replay, fn=f_ctl)
             certified(ctx, lab + "round_trip/cartesian_second_step", cart_cert(F2, D2, s["X2"], F1, D1), H, conj([cart(F2, D2, i, j) == cart(F1, D1, i, j) for i in range(2) for j in range(3)]),
                       "second switch: f'' . direct'' == f' . direct'", replay, f_ctl, env=ienv, facts=ifacts)
@@ -326,7 +326,7 @@ def trigonal_obligations(ctx, env):
             return I2.call(I2.getattr(cr, "choose_trigonal_lattice"), ["R"])
         res = I.explore(thunk, pre=NONSING + INV + [num >= 1, num <= 230] + [num != g for g in R_GROUPS])
         ok = bool(res) and all(r.kind == "raise" and isinstance(r.value, PyRaise) and "ValueError" in str(r.value.args[0] if r.value.args else r.value) for r in res)
-        ctx.prove("crystal.Crystal.choose_trigonal_lattice/ensures/guard/other_groups_raise", NONSING + INV, z3.BoolVal(ok),
+        ctx.prove("crystal.Crystal.choose_trigonal_lattice/ensures/guard/other_groups_raise", [], z3.BoolVal(ok),
                   clause="for every space group number outside {146,148,155,160,161,166,167} the call raises ValueError (nothing is modified)", replay=N.replay_guard, fn=f_ctl)
 
         def thunk2(I2, a_, kw):
@@ -337,7 +337,7 @@ def trigonal_obligations(ctx, env):
             return ret, same
         res2 = I.explore(thunk2, pre=NONSING + INV + [z3.Or(*[num == g for g in R_GROUPS])])
         ok2 = bool(res2) and all(r.kind == "return" and r.value[0] is None and r.value[1] for r in res2)
-        ctx.prove("crystal.Crystal.choose_trigonal_lattice/ensures/guard/same_choice_noop", NONSING + INV, z3.BoolVal(ok2),
+        ctx.prove("crystal.Crystal.choose_trigonal_lattice/ensures/guard/same_choice_noop", [], z3.BoolVal(ok2),
                   clause="asking for the setting the crystal already has returns without touching cell, asymmetric unit or space group", replay=N.replay_guard, fn=f_ctl)
 
         def thunk3(I2, a_, kw):
@@ -345,7 +345,7 @@ def trigonal_obligations(ctx, env):
             return I2.call(I2.getattr(cr, "choose_trigonal_lattice"), ["R"])
         res3 = I.explore(thunk3, pre=NONSING + INV + [z3.Or(*[num == g for g in R_GROUPS])])
         ok3 = bool(res3) and all(r.kind == "return" for r in res3)
-        ctx.prove("crystal.Crystal.choose_trigonal_lattice/ensures/guard/all_seven_accepted", NONSING + INV, z3.BoolVal(ok3),
+        ctx.prove("crystal.Crystal.choose_trigonal_lattice/ensures/guard/all_seven_accepted", [], z3.BoolVal(ok3),
                   clause="each of the seven R-lattice groups is accepted", replay=N.replay_trigonal("R"), fn=f_ctl)
     ctx.attempt("crystal.Crystal.choose_trigonal_lattice/ensures/guard", ob_guard, replay=N.replay_guard, fn=f_ctl)
 
@@ -383,12 +383,12 @@ def trigonal_obligations(ctx, env):
             rets = [r for r in res if r.kind == "return"]
             raises = [r for r in res if r.kind == "raise"]
             ok_paths = len(rets) == 1 and len(raises) == 1
-            ctx.prove(lab + "guard", NONSING + INV, z3.BoolVal(ok_paths), clause=f"returns a cell when {flag}, raises ValueError otherwise", replay=replay, fn=f_m)
+            ctx.prove(lab + "guard", [], z3.BoolVal(ok_paths), clause=f"returns a cell when {flag}, raises ValueError otherwise", replay=replay, fn=f_m)
             if not ok_paths:
                 return
             r = rets[0]
             flag_ok = any(h.eq(flags[flag]) for h in r.pc) and any(h.eq(z3.Not(flags[flag])) for h in raises[0].pc)
-            ctx.prove(lab + "guard/condition", r.pc, z3.BoolVal(flag_ok), clause=f"the returning path is the one with {flag} true", replay=replay, fn=f_m)
+            ctx.prove(lab + "guard/condition", [], z3.BoolVal(flag_ok), clause=f"the returning path is the one with {flag} true", replay=replay, fn=f_m)
             Dn = r.value.fields["direct"].data
             T = extract_T(Dn)
             uc_T[key] = T
